@@ -3,6 +3,8 @@ import Genshi.WireCore
 import Genshi.Model.TmplImpl
 import Genshi.Model.TmplExtract
 import Genshi.Model.TmplText
+import Genshi.Model.TmplScan
+import Genshi.Model.TmplRaw
 namespace Driver.C04
 open Genshi Genshi.Tmpl Genshi.Sexp
 
@@ -151,6 +153,68 @@ partial def cevS : CEv → Sexp
   | .xexpr x => .list [.atom "EX", xexprS x]
   | .sub ds body => .list [.atom "SUB", .list (ds.map dirS), .list (body.map cevS)]
 
+/-! raw text-template source -> tokens and parsed stream (`Model/TmplScan.lean`) -/
+
+def optStrS : Option (List Char) → Sexp
+  | none => .atom "NONE"
+  | some s => .str s
+
+partial def sevS : Scan.SEv → Sexp
+  | .text s => .list [.atom "TX", .str s]
+  | .expr s => .list [.atom "EX", .str s]
+  | .sub cmd val body => .list [.atom "SUB", .str cmd, optStrS val, .list (body.map sevS)]
+  | .incl parts => .list [.atom "INCL", .list (parts.map sevS)]
+  | .exec s => .list [.atom "EXEC", .str s]
+
+def perrName : Scan.PErr → String
+  | .syntax => "badsyntax" | .badDirective => "baddirective" | .attribute => "attribute" | .unmodelled => "unmodelled"
+
+def parsedS (r : Scan.PSt × Option Scan.PErr) : Sexp :=
+  match r.2 with
+  | none => .list [.atom "ok", .list (r.1.out.map sevS)]
+  | some e => .list [.atom "err", .atom (perrName e), .list (r.1.out.map sevS)]
+
+def rtokS : Scan.RTok → Sexp
+  | .text r => .list [.atom "T", .str r, .str (Scan.unescapeNew r)]
+  | .dir i c v => .list [.atom "D", .str i, .str c, .str v]
+  | .comment i => .list [.atom "C", .str i]
+
+def otokS : Scan.OTok → Sexp
+  | .text r => .list [.atom "T", .str r, .str (Scan.unescapeOld r)]
+  | .line b body => let cv := Scan.splitLine b body
+      .list [.atom "L", .str b, .str body, .str cv.1, optStrS cv.2]
+
+def handleScan : List Sexp → Option Sexp
+  | [.atom "rawnew", .str src] =>
+      some (.list [.list ((Scan.scanNew src).map rtokS), parsedS (Scan.parseToks Scan.stepNew ⟨0, [], []⟩ (Scan.scanNew src))])
+  | [.atom "rawold", .str src] =>
+      some (.list [.list ((Scan.scanOld src).map otokS), parsedS (Scan.parseToks Scan.stepOld ⟨0, [], []⟩ (Scan.scanOld src))])
+  | [.atom "printnew", .list toks] => do
+      let toks ← toks.mapM fun
+        | .list [.atom "T", .str s] => some (Scan.CTok.text s)
+        | .list [.atom "D", .str c, .str v] => some (Scan.CTok.dir c v)
+        | .list [.atom "C", .str b] => some (Scan.CTok.comment b)
+        | _ => none
+      pure (.str (Scan.printNew toks))
+  | _ => none
+
+/-! text templates end to end from their source (`Model/TmplRaw.lean`) -/
+
+def handleRaw : List Sexp → Option Sexp
+  | [.atom "rawcompile", .atom lang, strict, .str src] => do
+      let st ← strict.toBool?
+      match Raw.compileRaw (lang == "oldtext") st src with
+      | .ok cevs => pure (.list [.atom "ok", .list (cevs.map cevS)])
+      | .error e => pure (.list [.atom "err", .atom (perrName e)])
+  | [.atom "rawrender", .atom lang, strict, fuel, .str src, data] => do
+      let st ← strict.toBool?
+      let fuel ← fuel.toNat?
+      let data ← data? data
+      match Raw.renderRaw fuel (lang == "oldtext") st src data with
+      | .ok r => pure (outRes r)
+      | .error e => pure (.list [.atom "err", .atom (perrName e)])
+  | args => handleScan args
+
 def handle : List Sexp → Option Sexp
   | [.atom verb, .atom lang, fuel, .list nodes, data] => do
       let fuel ← fuel.toNat?
@@ -167,6 +231,6 @@ def handle : List Sexp → Option Sexp
           if markup then pure (.list ((compileFlat nodes).map cevS))
           else pure (.list ((compileText nodes).map cevS))
       | _ => none
-  | _ => none
+  | args => handleRaw args
 
 end Driver.C04
